@@ -211,7 +211,8 @@ def checkAffected (sp : Spec) (w : World) (t : Tid) : World :=
 
 /-- `Task.complete(state)` followed by `_check_affected_tasks` -/
 def completeTask (sp : Spec) (w : World) (r : TaskRow) (s : St) : World :=
-  if isCompleted r.state then w else
+  -- Task.complete ignores a completed task; the caller still runs _check_affected_tasks
+  if isCompleted r.state then checkAffected sp w (r.name, r.occ) else
   -- WorkflowController.continue_workflow returns no commands for a completed workflow
   let nt := if isCompleted w.wf then [] else nextOf sp r.name s
   let r1 : TaskRow := { r with state := s, nextTasks := nt, hasNext := !nt.isEmpty,
@@ -229,6 +230,7 @@ def fuelFor (_sp : Spec) : Nat := 200
 
 def step (sp : Spec) (w : World) : Event → World
   | .start =>
+    if w.wf != .IDLE then w else
     -- Workflow.start: IDLE → RUNNING, start tasks are the tasks without inbound transitions
     let starts := (sp.graph.tasks.filter fun t => (inbound sp.graph t.name).isEmpty).map (·.name)
     dispatch sp { w with wf := .RUNNING } starts
